@@ -43,6 +43,21 @@ func compareMapKeys(a, b reflect.Value) int {
 	for b.Kind() == reflect.Interface {
 		b = b.Elem()
 	}
+	if c := compareMapKeyValues(a, b); c != 0 {
+		return c
+	}
+	// Keys of an interface-keyed map can be equal in value but distinct as keys,
+	// e.g. int(1) and int64(1); order those by type so that the order is total.
+	if a.IsValid() && b.IsValid() && a.Type() != b.Type() {
+		if a.Type().String() < b.Type().String() {
+			return -1
+		}
+		return 1
+	}
+	return 0
+}
+
+func compareMapKeyValues(a, b reflect.Value) int {
 	ra, rb := mapKeyRank(a), mapKeyRank(b)
 	if ra != rb {
 		return ra - rb
